@@ -45,6 +45,7 @@ registry! {
     c17::C17,
     c18::C18,
     c19::C19,
+    c20::C20,
     c22::C22,
     c23::C23,
     c24::C24,
